@@ -39,6 +39,7 @@ def work(case):
     case = dict(case, edits=edits)
     return {"case": case, "res": {k: v for k, v in r.items() if k != "out_bytes"},
             "indexed": {"edits": ix, "res": {k: v for k, v in rix.items() if k != "out_bytes"}} if rix else None,
+            "heur": {"edits": edits, "res": {k: v for k, v in r.items() if k != "out_bytes"}},
             "sample": {"edits": [(e["target"], e["new"], e["kind"], e.get("comment")) for e in edits]}}
 
 
